@@ -339,6 +339,47 @@ func parallelCommitPreload(cfg Config, pc *PCase, st *CaseStats) error {
 			}
 		}
 		st.Add("parallel_preloads", 1)
+		// a batch with one register that cannot be decoded, and a batch during which one ledger read fails: the same
+		// kind of error for every worker count, no decoder goroutine left behind or crashing, storage still usable
+		if len(keys) >= 12 {
+			bad := ref.L.Clone()
+			victimID := keys[len(keys)-1]
+			if pc.Fault == 1 {
+				victimID = keys[len(keys)/2]
+			}
+			bad.Regs[victimID] = bad.Regs[victimID][:len(bad.Regs[victimID])/2]
+			cls1 := ""
+			for _, ww := range []int{1, w} {
+				sb := NewStorage(bad)
+				err := sb.BatchPreload(keys, ww)
+				if err == nil {
+					return fmt.Errorf("preload with %d workers of a batch with an undecodable register returned no error", ww)
+				}
+				// (a truncated register fails in the library's decoder or in the caller-supplied element decoder: the class
+				// of the error depends on where the cut falls, but not on the number of workers)
+				cls := fmt.Sprintf("%v/%v/%v", isUser(err), isFatal(err), isExternal(err))
+				if ww == 1 {
+					cls1 = cls
+				} else if cls != cls1 {
+					return fmt.Errorf("preload of a batch with an undecodable register: %d workers returned %v, 1 worker an error of another class (%s vs %s)", ww, err, cls, cls1)
+				}
+				if _, _, err := sb.Retrieve(keys[0]); err != nil {
+					return fmt.Errorf("storage unusable after a failed preload with %d workers: %v", ww, err)
+				}
+				lf := ref.L.Clone()
+				lf.FailRead = 1 + len(keys)/3
+				sf := NewStorage(lf)
+				err = sf.BatchPreload(keys, ww)
+				if err == nil || !isExternal(err) || !errors.Is(err, ErrInjected) {
+					return fmt.Errorf("preload with %d workers during which a ledger read fails returned %v (expected an external error wrapping the ledger's)", ww, err)
+				}
+				lf.FailRead = 0
+				if _, _, err := sf.Retrieve(keys[0]); err != nil {
+					return fmt.Errorf("storage unusable after a failed preload with %d workers: %v", ww, err)
+				}
+			}
+			st.Add("failing_preloads", 1)
+		}
 	}
 	return nil
 }
